@@ -463,6 +463,12 @@ def check_blocks(case, ctx):
         require(db.dm == dm, "read_dedisp_block:dm", f"{db.dm!r} vs {dm!r}")
         s.tstart_ok("read_dedisp_block", db.header.tstart, st0)
         s.labels_ok("read_dedisp_block", db.header.fch1, db.header.foff, n, ident(n))
+        # the reader -> block -> time series chain: the DM this block was read at is the DM its products record
+        for nm, prod in (("read_dedisp_block.get_tim", lambda: db.get_tim()), ("read_dedisp_block.downsample.get_tim", lambda: db.downsample(1, 1).get_tim())):
+            tmd = s.call(nm, prod)
+            if abs(tmd.header.dm - dm) > 1e-9 * max(1.0, abs(dm)):
+                raise Violation(f"{nm}:dm", f"{s.ctxt}: the series is dedispersed at {dm!r} but its header records dm {tmd.header.dm!r}")
+            s.tstart_ok(nm, tmd.header.tstart, st0)
         if lo < 0:
             lab.append("rdb_negative_delays")
     o = s.call("block.to_file", lambda: blk.to_file(s.out("blk.fil")))
